@@ -2047,6 +2047,11 @@ class Parallel(Logger):
             if hasattr(pre_dispatch, "endswith"):
                 pre_dispatch = eval_expr(pre_dispatch.replace("n_jobs", str(n_jobs)))
             self._pre_dispatch_amount = pre_dispatch = int(pre_dispatch)
+            if pre_dispatch == 0:
+                # e.g. 'n_jobs // 4' with few workers. Subsequent tasks are
+                # dispatched when a task completes: at least one task must be
+                # dispatched here, otherwise none would ever be.
+                self._pre_dispatch_amount = pre_dispatch = 1
 
             # The main thread will consume the first pre_dispatch items and
             # the remaining items will later be lazily dispatched by async
